@@ -285,7 +285,7 @@ class Source:
 
 # --------------------------------------------------------------------------- text rules
 DROP_ATTR = re.compile(
-    r"^(derive|error|from|inline|instrument|tracing::instrument|allow|expect|cfg_attr|doc|must_use|serde|non_exhaustive|cfg\(feature)"
+    r"^(derive|error|from|inline|instrument|tracing::instrument|allow|expect|cfg_attr|doc|must_use|serde|non_exhaustive)"
 )
 KEEP_DERIVES = {"Clone", "Copy", "PartialEq", "Eq"}
 
@@ -319,6 +319,10 @@ def strip_comments(text, rules):
     return res
 
 
+# cargo features of the crates under contract that are OFF in the default build
+OFF_FEATURES = ("slow_path_assertions",)
+
+
 def process_attrs(text, rules, keep_derives=True):
     """Drop attributes per the DESIGN table.  derive(...) keeps only Clone/Copy/PartialEq/Eq
     (Verus understands these) -- every other derive is dropped and counted."""
@@ -345,6 +349,30 @@ def process_attrs(text, rules, keep_derives=True):
             repl = ""
         elif inner.startswith("cfg(test)"):
             raise ExtractError("cfg(test) item inside extracted text")
+        elif re.fullmatch(r'cfg\(\s*not\(\s*feature\s*=\s*"(%s)"\s*\)\s*\)' % "|".join(OFF_FEATURES), inner):
+            # the feature is off in the default build (the one the test suite and cargo-kani compile): the guarded
+            # statement is live code -- keep it, drop only the attribute
+            rules.hit("drop:attr(cfg(not(feature-off)))")
+            repl = ""
+        elif re.fullmatch(r'cfg\(\s*feature\s*=\s*"(%s)"\s*\)' % "|".join(OFF_FEATURES), inner):
+            # code under a cargo feature that is off in the default build is not compiled: drop the attribute
+            # together with the block / statement it guards
+            j = cb + 1
+            while masked[j].isspace():
+                j += 1
+            if masked[j] == "{":
+                end = match_close(masked, j) + 1
+            else:
+                d, end = 0, j
+                while not (masked[end] == ";" and d == 0):
+                    d += masked[end] in "([{"
+                    d -= masked[end] in ")]}"
+                    end += 1
+                end += 1
+            rules.hit("drop:cfg-off-feature-code")
+            out.append(text[pos:m.start()])
+            pos = end
+            continue
         else:
             raise ExtractError("unknown attribute #[%s] in extracted item" % inner[:40])
         out.append(text[pos:m.start()])
